@@ -87,10 +87,29 @@ def streams():
     return [StrStream(), HoStream(), RawStream()]
 
 
+ASSUMPTIONS = [
+    "The step semantics modelled is the repaired one (fix: commits 8bfc9a9 division by zero -> NaN, 0c93204 NaN-aware max/min).",
+    "'Needed input' = every stream the expression mentions (all operators, max/min included, are strict).",
+    "Exact arithmetic (rnd = Num) for the string theorem; the operator-API theorems and the per-step NaN lemmas hold for every "
+    "rounding function rnd (overflow to +-inf is then 'result not finite').",
+    "A formula has at least one input stream; all streams deliver one sample per timestamp in lock-step (C06 covers synchronisation).",
+]
+TRUSTED = c05.TRUSTED
+
 META = {
-    "technique": "Coq proof (NaN propagation per step and operand position for every rounding function; strictness of "
-                 "compiled programs by structural induction; stack discipline => a sample for every round) + T-tie translation "
-                 "of _operator_precedence + differential correspondence of the formula engine vs the model evaluated in Coq",
-    "level_text": "see props/C13.v",
-    "level_note": "filled in below",
+    "technique": "Coq proof (NaN propagation for every step kind and operand position and every rounding function; an invariant of the "
+                 "post-fix executor: a NaN once fetched stays on the stack; strictness and stack discipline of compiled programs by structural "
+                 "induction) + T-tie translation of _operator_precedence + differential correspondence of the formula engine vs the model "
+                 "evaluated inside Coq, with missing masks (None/NaN/+-inf), both nones_are_zeros settings per stream and per build, zero divisors",
+    "level_text": "Machine-checked theorems, closed under the global context, on the Gallina model of MetricFetcher.apply, the step classes, "
+                  "FormulaEvaluator.apply and the builders: NaN in => NaN out for + - * / max min (either operand), consumption, production, "
+                  "clip; a zero divisor gives NaN; through ANY post-fix program a fetched NaN is still on the stack at the end; for every builder "
+                  "tree a sample is emitted in every round, it is None iff a needed input is missing on a stream not configured as zero or the "
+                  "tree's value on the zero-filled inputs is NaN/inf, otherwise it is that value; with nones_are_zeros every encoding of missing "
+                  "behaves exactly like 0; for formula strings (exact arithmetic) the sample is the ordinary value or None when that is undefined. "
+                  "Tied to the code by running the real engine on generated formulas x missing masks and comparing every emitted sample "
+                  "(and the absence of lost timestamps) inside Coq; the property is also judged directly on the implementation's samples.",
+    "level_note": "Holds for the repaired tree only: on the unchanged tree the check reports F5 (max/min ignore a NaN second operand) and F6 "
+                  "(zero divisor drops the sample) with concrete replays. Proved on the model; the tie to CPython is checked, not proved. "
+                  "Float rounding/overflow is the parameter rnd. Fallback fetchers (C19) and stream synchronisation (C06) are not part of this model.",
 }
